@@ -1,0 +1,58 @@
+//go:build verif
+
+// Machine-checked contracts for this package (comment-only; compiled only with -tags verif,
+// and even then contributes no code).  Read by /verif/govc; see /verif/DESIGN.md.
+
+package v4
+
+//@ -- TCP state of an entry as derived from the two legs' flags
+//@ func (EntryData).Established
+//@   property C14
+//@   ensures res == (data.A2B.SynSeen && data.A2B.AckSeen && data.B2A.SynSeen && data.B2A.AckSeen)
+//@   assigns nothing
+//@ func (EntryData).RSTSeen
+//@   property C14
+//@   ensures res == (data.A2B.RstSeen || data.B2A.RstSeen)
+//@   assigns nothing
+//@ func (EntryData).FINsSeen
+//@   property C14
+//@   ensures res == (data.A2B.FinSeen && data.B2A.FinSeen)
+//@   assigns nothing
+//@ func (EntryData).FINsSeenDSR
+//@   property C14
+//@   ensures res == (data.A2B.FinSeen || data.B2A.FinSeen)
+//@   assigns nothing
+
+//@ -- An entry handed to the scanners is an immutable snapshot of a map value: its accessors are
+//@ -- pure observers of the value (uninterpreted functions of it).
+//@ spec func ctLastSeen(e ValueInterface) int64
+//@ spec func ctRSTResidual(e ValueInterface) int64
+//@ spec func ctType(e ValueInterface) uint8
+//@ spec func ctIsDSR(e ValueInterface) bool
+//@ spec func ctData(e ValueInterface) EntryData
+//@ func (ValueInterface).LastSeen
+//@   trusted
+//@   ensures res == ctLastSeen(recv)
+//@   assigns nothing
+//@ func (ValueInterface).RSTSeen
+//@   trusted
+//@   ensures res == ctRSTResidual(recv)
+//@   assigns nothing
+//@ func (ValueInterface).Type
+//@   trusted
+//@   ensures res == ctType(recv)
+//@   assigns nothing
+//@ func (ValueInterface).IsForwardDSR
+//@   trusted
+//@   ensures res == ctIsDSR(recv)
+//@   assigns nothing
+//@ func (ValueInterface).Data
+//@   trusted
+//@   ensures res == ctData(recv)
+//@   assigns nothing
+
+//@ spec func ctKeyProto(k KeyInterface) uint8
+//@ func (KeyInterface).Proto
+//@   trusted
+//@   ensures res == ctKeyProto(recv)
+//@   assigns nothing
